@@ -627,6 +627,11 @@ func (s *Store) resolveWritePath(name string) (string, error) {
 		if strings.HasPrefix(rel, "../") || rel == ".." {
 			return "", ErrPathTraversalDisallowed
 		}
+		// the existing part of the path may pass through symbolic links:
+		// make sure that its real location is still in the working directory
+		if err := ensureRealPathInBase(base, target); err != nil {
+			return "", err
+		}
 	}
 	if s.DisableOverwrite {
 		if _, err := os.Stat(path); err == nil {
@@ -636,6 +641,44 @@ func (s *Store) resolveWritePath(name string) (string, error) {
 		}
 	}
 	return path, nil
+}
+
+// ensureRealPathInBase ensures that the deepest existing ancestor of target,
+// with symbolic links resolved, is located in base.
+func ensureRealPathInBase(base, target string) error {
+	realBase, err := filepath.EvalSymlinks(base)
+	if err != nil {
+		if os.IsNotExist(err) {
+			// nothing exists yet, so there are no links to follow
+			return nil
+		}
+		return err
+	}
+	existing := target
+	for {
+		if _, err := os.Lstat(existing); err == nil {
+			break
+		}
+		parent := filepath.Dir(existing)
+		if parent == existing {
+			break
+		}
+		existing = parent
+	}
+	realPath, err := filepath.EvalSymlinks(existing)
+	if err != nil {
+		// e.g. a dangling symbolic link, which would be followed on creation
+		return fmt.Errorf("%w: %v", ErrPathTraversalDisallowed, err)
+	}
+	rel, err := filepath.Rel(realBase, realPath)
+	if err != nil {
+		return ErrPathTraversalDisallowed
+	}
+	rel = filepath.ToSlash(rel)
+	if strings.HasPrefix(rel, "../") || rel == ".." {
+		return ErrPathTraversalDisallowed
+	}
+	return nil
 }
 
 // status returns the nameStatus for the given name.
